@@ -12,7 +12,10 @@ func (p *Path) fpOfInt(c *Term, si intInfo) Value {
 }
 
 func (p *Path) intOfFP(c *Term, di intInfo) Value {
-	panic(unsupported("float64->int conversion of a symbolic float"))
+	if !p.realMode || c.S.K != SReal {
+		panic(unsupported("float64->int conversion of a symbolic float"))
+	}
+	return termOrInt(p.tt().RealToBV(c, di.W), di)
 }
 
 // harnessAnnotations collects `// verif:<key> text` lines from the harness files.
